@@ -53,16 +53,19 @@ def mergedAuthor (st : State) (y : Nat) : Author :=
   | some s => some s
   | none => tipAuthor st y
 
-/-- `git commit --amend` of the staged content -/
-def amendStep (st : State) : State :=
+/-- the amended commit replaces the newest one: its note credits every line it adds relative to
+    the parent of the replaced commit -/
+def amendCore (st : State) : State :=
   match st.log, st.notes with
   | (_, p) :: log, _ :: notes =>
-    let st1 := checkpoint st none          -- pre-commit human checkpoint
-    let author := mergedAuthor st1
-    { head := st1.index, index := st1.index, work := st1.work, entries := [],
-      initial := splitPending st1.index st1.work author,
-      notes := splitNote p st1.index author :: notes, log := (st1.index, p) :: log }
+    let author := mergedAuthor st
+    { head := st.index, index := st.index, work := st.work, entries := [],
+      initial := splitPending st.index st.work author,
+      notes := splitNote p st.index author :: notes, log := (st.index, p) :: log }
   | _, _ => st
+
+/-- `git commit --amend` of the staged content (after the pre-commit human checkpoint) -/
+def amendStep (st : State) : State := amendCore (checkpoint st none)
 
 /-- HEAD moves back by `k` commits (refs only) -/
 def undoN : Nat → State → State
@@ -103,6 +106,12 @@ def replayChain (orig : Nat → Author) : List Nat → List (List Nat) → List 
   | _, [] => []
   | base, c :: cs => replayChain orig c cs ++ [((c, base), splitNote base c orig)]
 
+/-- content of the newest commit of a chain, or `fallback` for the empty chain -/
+def midTip (chain : List ((List Nat × List Nat) × Note)) (fallback : List Nat) : List Nat :=
+  match chain with
+  | ((c, _), _) :: _ => c
+  | [] => fallback
+
 /-- rebase (`src` = the branch itself, `drop` = number of its commits that are rewritten, `mid` =
     the upstream commits that are new to the branch) and cherry-pick (`drop = 0`, `mid = []`,
     `src` = the branch picked from). The tree is clean before and after. -/
@@ -113,13 +122,9 @@ def replayStep (drop : Nat) (mid : List ((List Nat × List Nat) × Note))
   let st0 := undoN drop st
   let baseLog := mid.map (·.1) ++ st0.log
   let baseNotes := mid.map (·.2) ++ st0.notes
-  let baseTip := match mid with
-    | ((c, _), _) :: _ => c
-    | [] => st0.head
+  let baseTip := midTip mid st0.head
   let chain := replayChain orig baseTip news
-  let tip := match chain with
-    | ((c, _), _) :: _ => c
-    | [] => baseTip
+  let tip := midTip chain baseTip
   { head := tip, index := tip, work := tip, entries := [], initial := [],
     log := chain.map (·.1) ++ baseLog, notes := chain.map (·.2) ++ baseNotes }
 
